@@ -102,7 +102,7 @@ def run_property(prop, tier, root, quiet=False, overrides=None):
     latebind.census(eng, R, prop)
     st = eng.eff.stats
     R.info["call sites seen by effect summaries"] = "%d (resolved %d, opaque %d)" % (st["calls"], st["resolved"], st["opaque"])
-    return R, explanation
+    return R, explanation + " Cross-property censuses over the property's anchor modules: T-tol (no unreviewed tolerance comparison in a decision position) and L-late (no closure over a loop variable escapes the iteration)."
 
 
 def main(prop, tier="quick", root="/repo", replay=None, write=True, selftest=True):
